@@ -46,6 +46,12 @@ def kernel_specs(tier, seed):
         n = rnd.choice([50, 53, 60, 75])
         specs.append({"name": "rand%d_%d" % (n, i), "arch": "syn",
                       "text": lc.random_dense_text(random.Random(seed * 31 + i), n, pool=rnd.choice([5, 8, 12]), nsrc=2, p_pad=0.1)})
+    # every instruction is a loop-carried cycle of its own, with comment / label / directive lines in between:
+    # a line that is not used as a search root is a cycle that is not reported (instruction count 59, line count 66)
+    body = ["\tadd x%d, x%d, #1" % (i, i) for i in range(1, 28)] + ["\tfadd d%d, d%d, d%d" % (i, i, i) for i in range(0, 32)]
+    for pos, noise in ((3, "// a comment"), (10, ".L7:"), (20, "// another"), (31, ".p2align 4"), (40, ".L8:"), (50, "// c"), (57, "// d")):
+        body.insert(pos, noise)
+    specs.append({"name": "selfcycles59+7", "arch": "tx2", "text": "\n".join(body) + "\n"})
     shipped = [("kernel_x86.s", "zen2"), ("kernel_aarch64.s", "tx2"), ("kernel_x86_memdep.s", "zen2")]
     if tier != "quick":
         shipped += [("kernel_aarch64_memdep.s", "tx2"), ("kernel_aarch64_sve.s", "tx2"), ("triad_x86_iaca.s", "zen2"),
@@ -145,7 +151,8 @@ def cli_checks(run, tier, seed):
                          {"file": path, "arch": arch, "nw": nw})
                 continue
             if not hook["n"] or hook["n"][0] < 50 or not hook["exitcodes"]:
-                raise tlc.TLCError("CLI run of %s did not take the parallel path (%r)" % (f, hook))
+                # where the threshold lies is not an observable: the reports are still compared
+                run.divergence("threshold", {"file": f, "what": "CLI run did not take the parallel path", "hook": hook})
             reports.setdefault(f, []).append((nw, lc.strip_timestamp(out)))
             run.add_eval(1)
     for f, reps in reports.items():
@@ -215,7 +222,13 @@ def main(tier, seed):
                 o["name"], o.get("after_s")), {"job": {k: v for k, v in o["item"].items() if k != "text"}, "text": o["item"].get("text", "")[:3000]})
             o.update(cases=[], meta={}, fails=[], notes={})
         if o.get("machinery"):
-            raise tlc.TLCError(o["machinery"])
+            if "did not take the parallel path" in o["machinery"]:
+                # where exactly the threshold lies is not an observable of C16 (the results must agree on
+                # either path): noted, and this kernel's parallel-only comparisons are skipped
+                run.divergence("threshold", {"kernel": o["name"], "what": o["machinery"]})
+                o.update(cases=[], meta={}, fails=o.get("fails") or [], notes={})
+            else:
+                raise tlc.TLCError(o["machinery"])
         for sig, what, case in o["fails"]:
             run.fail("C16:" + sig, what, case)
         cases += o["cases"]
